@@ -75,6 +75,10 @@ fn judge_inner(rt: &tokio::runtime::Runtime, r: &mut Report, case: &Case) {
     }
     let cell = |v: &str| format!("{}/{}/{:?}/{v}", case.source, case.op, tc);
     match (&facts.expect, tc) {
+        // whatever else is odd about the request: the signed date and lifetime put this use outside the window
+        (Expect::Unspecified(_), TimeClass::FutureBeyondSkew | TimeClass::Expired) if authenticated => {
+            r.violated(format!("C06/accepted-outside-window/{tc:?}/{}", case.op), wit(json!({})));
+        }
         (Expect::Unspecified(why), _) => r.inconclusive(format!("reference abstains: {why}")),
         (Expect::Reject(_), _) => {
             if authenticated {
@@ -128,6 +132,17 @@ fn set_query(req: &mut RawRequest, f: impl FnOnce(Vec<String>) -> Vec<String>) {
 fn mutants(g: &mut Rng, base: &RawRequest, secrets: &HashMap<String, String>) -> Vec<(String, RawRequest, Option<HashMap<String, String>>)> {
     let mut out: Vec<(String, RawRequest, Option<HashMap<String, String>>)> = Vec::new();
     const PARAMS: &[&str] = &["X-Amz-Algorithm", "X-Amz-Credential", "X-Amz-Date", "X-Amz-Expires", "X-Amz-SignedHeaders", "X-Amz-Signature"];
+    // headers nobody signed that name another time or lifetime: the window is that of the signed parameters
+    for (name, header, value) in [
+        ("unsigned-header-added/x-amz-date-now", "x-amz-date", unix_to_amz_date(now_unix())),
+        ("unsigned-header-added/date-now", "date", crate::monitor::c06_http_date(now_unix())),
+        ("unsigned-header-added/x-amz-expires", "x-amz-expires", "604800".to_owned()),
+        ("unsigned-header-added/x-amz-date-long-ago", "x-amz-date", unix_to_amz_date(now_unix() - 86_400 * 30)),
+    ] {
+        let mut r = base.clone();
+        r.headers.push((header.to_owned(), value.into_bytes()));
+        out.push((name.to_owned(), r, None));
+    }
     for p in PARAMS {
         let short = p.trim_start_matches("X-Amz-").to_ascii_lowercase();
         // removal
